@@ -75,10 +75,6 @@ package mux
 //@   property C05
 //@   requires d != nil
 //
-//@ func (d *Demuxer) GetChunk
-//@   property C05
-//@   requires d != nil
-//
 // ---- C14: what the muxer writes is what its size fields announce ----
 //
 //@ pure func padded(n uint32) uint32 = n + (n & 1)
@@ -274,3 +270,17 @@ package mux
 //@   ensures 2 * ((off/2) & 0xffffff) == off
 //@   ensures 1 + ((dim-1) & 0xffffff) == dim
 //@   ensures dur & 0xffffff == dur
+//
+// ---- C15: the demuxer hands back the metadata blobs it recorded ----
+//
+// GetChunk returns exactly the slice stored for the requested FourCC (the
+// bytes of the file's chunk, not a copy that could differ), or an error; it
+// never returns a blob for a different FourCC.
+//@ func (d *Demuxer) GetChunk
+//@   property C05 C15
+//@   requires d != nil
+//@   modifies nothing
+//@   ensures result1 == nil && id == FourCCICCP ==> result0 == d.iccData && d.iccData != nil
+//@   ensures result1 == nil && id == FourCCEXIF ==> result0 == d.exifData && d.exifData != nil
+//@   ensures result1 == nil && id == FourCCXMP ==> result0 == d.xmpData && d.xmpData != nil
+//@   ensures result1 != nil ==> result0 == nil
